@@ -186,7 +186,8 @@ fn pairs<D: Dom, V: VecN<D, N> + MaybeNeg + for<'a> std::iter::Sum<&'a V>, const
     let n2 = nb * dev.len();
     // (3) thorough: the full product over the alphabet
     let dims3: Vec<usize> = std::iter::repeat(l.len()).take(2 * N).chain([3]).collect();
-    let n3 = if rep.thorough() { alphabet::product_len(&dims3) } else { 0 };
+    // thorough: the full product, where it stays below 2e6 cases per domain (dimension <= 3)
+    let n3 = if rep.thorough() && alphabet::product_len(&dims3) <= 2_000_000 { alphabet::product_len(&dims3) } else { 0 };
     rep.cases(
         &format!("pairs/{}", V::NAME),
         D::NAME,
